@@ -43,6 +43,37 @@ def _inline(test, defs: Defs, depth=2, _seen=None):
     return T().visit(copy.deepcopy(test))
 
 
+_NEG_CMP = {ast.Eq: ast.NotEq, ast.NotEq: ast.Eq, ast.In: ast.NotIn, ast.NotIn: ast.In, ast.Is: ast.IsNot, ast.IsNot: ast.Is}
+
+
+def _nnf(test, positive=True):
+    """Negation normal form of ``test`` (negated when ``positive`` is False): negations are pushed through
+    and/or (De Morgan), double negations vanish, and ==/!=, in/not in, is/is not absorb a negation.  Order
+    comparisons are NOT flipped (``not a < b`` differs from ``a >= b`` for NaN)."""
+    if isinstance(test, ast.UnaryOp) and isinstance(test.op, ast.Not):
+        return _nnf(test.operand, not positive)
+    if isinstance(test, ast.BoolOp):
+        vals = [_nnf(v, positive) for v in test.values]
+        op = test.op if positive else (ast.Or() if isinstance(test.op, ast.And) else ast.And())
+        return ast.BoolOp(op=op, values=vals)
+    if positive:
+        return test
+    if isinstance(test, ast.Compare) and len(test.ops) == 1 and type(test.ops[0]) in _NEG_CMP:
+        return ast.Compare(left=test.left, ops=[_NEG_CMP[type(test.ops[0])]()], comparators=test.comparators)
+    if isinstance(test, ast.Constant) and isinstance(test.value, bool):
+        return ast.Constant(value=not test.value)
+    return ast.UnaryOp(op=ast.Not(), operand=test)
+
+
+def _conjuncts(test):
+    if isinstance(test, ast.BoolOp) and isinstance(test.op, ast.And):
+        out = []
+        for v in test.values:
+            out.extend(_conjuncts(v))
+        return out
+    return [test]
+
+
 def _features(node, local_names) -> Counter:
     c = Counter()
     for n in ast.walk(node):
@@ -114,14 +145,18 @@ def guard_instances(f: FuncInfo, kinds=("raise", "return None", "return", "conti
         total = Counter()
         texts = []
         for t, pol in chain:
-            it = _inline(t, defs)
-            fc = _features(it, local_names)
-            # polarity is part of the feature set
-            total.update({f"{'+' if pol else '-'}{k}": v for k, v in fc.items()})
-            texts.append(("" if pol else "not ") + unparse(t))
+            # the chain is a conjunction; normalise every element to negation normal form and split it into its
+            # conjuncts, so that nested-if vs `and`, early-return vs else-branch, De Morgan and `not a == b` vs
+            # `a != b` spellings of the same condition give the same multiset
+            for lit in _conjuncts(_nnf(_inline(t, defs), pol)):
+                ast.fix_missing_locations(lit)
+                total.update(_features(lit, local_names))
+                total["<conjunct>"] += 1
+            for lit in _conjuncts(_nnf(t, pol)):
+                texts.append(unparse(lit))
         canon = ";".join(f"{k}={v}" for k, v in sorted(total.items()))
         fp = hashlib.sha256(canon.encode()).hexdigest()[:16]
-        out.append((s, ek, fp, " AND ".join(f"({x})" for x in texts) if texts else "<unconditional>"))
+        out.append((s, ek, fp, " AND ".join(f"({x})" for x in sorted(texts)) if texts else "<unconditional>"))
     return out
 
 
